@@ -89,11 +89,11 @@ class C28(Prop):
                   "or the first one along the wraps chain; the cycle check terminates, a rejection names a genuine "
                   "cycle, and after acceptance _get_workdir terminates for every deployment. Tied to /repo by running "
                   "the real WorkflowConfig/get_binding_config and the model on generated StreamFlow configurations.")
-    LEVEL_NOTE = ("Partial: 'every reachable wraps cycle is rejected' is proved only as its contrapositive (accepted => "
-                  "every chain ends, C28_cycles_accepted_terminates_partial). "
-                  "Trusted: Coq kernel + vm_compute; the hand-written model (tied to the code by the correspondence run); "
-                  "PurePosixPath.parts is modelled for '/'-separated ASCII paths; Target.__init__'s `or` chain is in Corr.v. "
-                  "No axioms.")
+    LEVEL_NOTE = ("The cycle clause is proved in both directions: a rejection names a genuine cycle, and a wraps cycle reachable "
+                  "from a declared deployment is never accepted (C28_cycles_never_accepted; with all references defined the "
+                  "answer is the definition error, C28_cycles). Trusted: Coq kernel + vm_compute; the hand-written model (tied "
+                  "to the code by the correspondence run); PurePosixPath.parts is modelled for '/'-separated ASCII paths; "
+                  "Target.__init__'s `or` chain is in Corr.v. No axioms.")
     TECHNIQUE = "Coq proof (induction over paths / binding lists / fuel with a pigeonhole bound) + vm_compute correspondence"
     RULE = ("nearest: 1..8 step/port bindings over paths of depth 0..4 from a small alphabet (root binding, repeated paths, "
             "unnormalised spellings //, /./, trailing /, rare relative or //-rooted paths), 6..10 step/port lookups on "
